@@ -53,6 +53,15 @@ SPEC = Spec(
          "non-trivial = at least one hand-off was interrupted by shutdown. Every 3rd e2e case enables sending_queue::batch with "
          "min=max size so that every stored request is exported in 2-4 parts, the destination is down at shutdown (the part errors "
          "are combined into one multi-error of shutdown errors), and the second incarnation must deliver every item. "
+         "exporter (monitor: Go oracle + the proven-sound Lean trace checker, model c01-exporter): REAL exporters built through the "
+         "public constructors NewTraces / NewMetrics / NewLogs / xexporterhelper.NewProfilesExporter (signal = case mod 4) with a generated "
+         "option set (WithQueue | WithQueueBatch | WithQueue+legacy WithBatcher in both orders | sending_queue::batch; queue size 1-3, "
+         "1-2 consumers, block_on_overflow on/off, retry on/off, wait_for_result off) and sending_queue::storage on an in-process storage "
+         "extension whose map survives death. 1-3 incarnations die (abandoned without Shutdown, or right after the k-th storage call; "
+         "some with ENOSPC-like failing enqueue batches as extension: refused offers create no obligation), destination ok / permanent "
+         "error / retryable error / hanging; the last incarnation is healthy and drains. Payloads carry an id resource attribute. Oracle: "
+         "every ConsumeX that returned nil is handed to the export function by a live incarnation at least once, and at every death it is "
+         "still in the storage bytes unless a hand-off of it has returned; signatures C01/exporter/<what>/<signal>/<option shape>. "
          "distinct = distinct op sequences (sha1 of the op lines).",
     trusted_base=[
         "Lean 4.33.0 kernel; axioms per theorem listed under axioms_per_theorem (subset of propext, Classical.choice, Quot.sound)",
